@@ -96,6 +96,13 @@ def t_chef_api(P, P2, out, opt):
     Chef(P, recipe=opt["recipe"], outfile=out, serial=opt.get("serial", False), kept_fields=opt.get("kept")).cook()
 
 
+def t_chef_hrr(P, P2, out, opt):
+    from amr_kitchen.chef import Chef
+    from . import c11
+    Chef(P, recipe=opt.get("builtin", "HRR"), outfile=out, mech=c11.MECH, pressure=1.0, serial=opt.get("serial", False),
+         kept_fields=opt.get("kept")).cook()
+
+
 def t_chef_cli(P, P2, out, opt):
     import amr_kitchen.chef.cli as m
     _argv(["chef", P, "-r", opt["recipe"]] + (["-o", out] if out else []), m.main)
@@ -173,6 +180,8 @@ TOOLS = {
     "combine_cli": (t_combine_cli, "plt3", True, ["explicit", "default"], [{}], ["missing_binary", "missing_level_header"]),
     "chef_api": (t_chef_api, "plt3", False, ["explicit", "default"], [{"recipe": "@RECIPE"}, {"recipe": "@RECIPE", "serial": True, "kept": "Z"}],
                  ["missing_binary", "missing_level_header", "unknown_field"]),
+    "chef_builtin": (t_chef_hrr, "thermo", False, ["explicit", "default"],
+                     [{"builtin": "HRR"}, {"builtin": "ENT", "serial": True, "kept": "temp"}], ["missing_binary", "missing_level_header"]),
     "chef_cli": (t_chef_cli, "plt3", False, ["explicit", "default"], [{"recipe": "@RECIPE"}], ["missing_binary", "missing_level_header"]),
     "mandoline_api": (t_mandoline_api, "plt3", False, ["explicit", "default"],
                       [{"fformat": "array"}, {"fformat": "plotfile"}, {"fformat": "plotfile", "fields": ["temp"], "serial": True, "normal": 2},
@@ -207,6 +216,10 @@ def cases(tier, seed):
                 for pf in PATH_FORMS:
                     do_faults = (tier == "thorough") or pf in (("parent", "rel"), ("parent", "slash")) \
                         or (pf == ("else", "abs") and oi == 0)
+                    if name == "chef_builtin":          # Cantera runs are slow: fewer forms, faults in the thorough tier only
+                        if pf not in (("parent", "rel"), ("parent", "slash"), ("else", "abs")):
+                            continue
+                        do_faults = tier == "thorough" and pf == ("parent", "rel")
                     do_broken = pf == ("parent", "rel") and oi == 0
                     out.append({"tool": name, "outmode": om, "opt": oi, "pathform": list(pf), "faults": do_faults,
                                 "broken": do_broken, "seed": seed, "w": 30 if do_faults and om != "none" else 1})
@@ -235,6 +248,14 @@ class Env(object):
             chkmodel.write_checkpoint(dict(chkdesc(), seed=seed), self.p1)
             self.inputs = [self.p1]
             self.p2 = None
+        elif kind == "thermo":
+            from . import c11
+            from ..refmodel import write_plotfile
+            d = c11.thermo_desc(seed, 1)
+            self.p1 = os.path.join(self.indir, "plt00010")
+            write_plotfile(d, self.p1, ref=c11.thermo_ref(d))
+            self.p2 = None
+            self.inputs = [self.p1]
         else:
             d = mesh3() if kind == "plt3" else mesh2()
             d["seed"] = seed
@@ -273,6 +294,7 @@ def execute(case, env, fail_at=None, breakage=None):
             os.remove(os.path.join(env.p1, "Level_1", "state_D_00001"))
         else:
             lv = "Level_1"
+            lv = lv if kind != "thermo" else "Level_0"
             victim = sorted(f for f in os.listdir(os.path.join(env.p1, lv)) if f.startswith("Cell_D"))[0]
             os.remove(os.path.join(env.p1, lv, victim))
     if breakage == "missing_level_header":
